@@ -172,6 +172,17 @@ def rot_args(v, th):
     return '%s %s %s %s' % (frs(v), dhex(th), dhex(math.sin(th)), dhex(math.cos(th)))
 
 
+def small_abs(tol, xs):
+    """every residual (an exact rational) is below tol times the magnitude of the operand"""
+    scale = max([1.0] + [abs(float(x)) for x in xs])
+    def chk(vals, line):
+        if vals is None: return 'error result ' + line[:100]
+        for i, v in enumerate(vals):
+            if abs(float(v)) > tol * scale: return 'residual %.3g exceeds %.3g at output %d (basis matrix not orthonormal / not proper / get_in, get_out not inverse)' % (abs(float(v)), tol * scale, i)
+        return None
+    return chk
+
+
 def gen_C14(g, tier):
     n = 8 if tier == 'quick' else 150
     cs = []
@@ -190,13 +201,15 @@ def gen_C14(g, tier):
     for tag, b in bas:
         x = g.rats(3)
         cs.append(Case('basis.obj 1 %s %s' % (b, frs(x)), 'cmp', 'basis-' + tag))
-        if tag != 'ell': cs.append(Case('o.c14.basis 1 %s %s' % (b, frs(x)), 'orc', 'basis-' + tag))
+        cs.append(Case('o.c14.basis 1 %s %s' % (b, frs(x)), 'orc', 'basis-' + tag, check=(small_abs(1e-13, x) if tag == 'ell' else None)))
     for _ in range(10 if tier == 'quick' else 300):
         k = g.randint(1, 20)
         seq = [g.choice(bas)[1] for _ in range(k)]
         cs.append(Case('basis.obj %d %s %s' % (k, ' '.join(seq), frs(g.rats(3))), 'cmp', 'basis-sequence'))
         seq2 = seq + [g.choice(['lin', 'cir'])]
         cs.append(Case('o.c14.basis %d %s %s' % (k + 1, ' '.join(seq2), frs(g.rats(3))), 'orc', 'basis-sequence'))
+        x = g.rats(3)
+        cs.append(Case('o.c14.basis %d %s %s' % (k, ' '.join(seq), frs(x)), 'orc', 'basis-sequence-any', check=small_abs(1e-13, x)))
     for _ in range(5 * n):
         cs.append(Case('cross %s' % frs(g.rats(6)), 'cmp', 'cross'))
         cs.append(Case('v 3 dot %s' % frs(g.rats(6)), 'cmp', 'dot'))
